@@ -738,7 +738,12 @@ impl<'a> Poly<'a> {
         // Compute: middle product(1 + x C, A + x^n B)
         // = (1 + x C, A + x^n B) [x^n .. x^(2n-1)]
         // = B + middle product(C, A..B)
-        if z[0] == zn.one() && (half_up - 1) & (half_up - 2) == 0 {
+        // The 1 + xC shortcut is only valid for odd lengths p.len() = 2 * half_up - 1 >= 3.
+        if z[0] == zn.one()
+            && half_up >= 2
+            && p.len() == 2 * half_up - 1
+            && (half_up - 1) & (half_up - 2) == 0
+        {
             debug_assert!(p.len() - 1 == 2 * (half_up - 1));
             Self::_middlemul_1x(zr, tmplo, &p[1..], &z[1..half_up], tmp_mul);
         } else {
@@ -777,7 +782,11 @@ impl<'a> Poly<'a> {
         // α in HQZ paper.
         Self::_inv_mod_xn(zr, alpha, &q[..half_up], tmphi);
         // β in HQZ paper.
-        if p[0] == zn.one() && alpha[0] == zn.one() && (half_up - 1) & (half_up - 2) == 0 {
+        if p[0] == zn.one()
+            && alpha[0] == zn.one()
+            && half_up >= 2
+            && (half_up - 1) & (half_up - 2) == 0
+        {
             // Common case: (1+α)(1+β)=1+α+β+αβ where len(α) = 2^k
             Self::_longmul(
                 zr,
@@ -798,7 +807,12 @@ impl<'a> Poly<'a> {
         // Hensel lift mod x^n
         // Get P1 / Q0^2 as a middle product
         // γ in HQZ paper.
-        if z[0] == zn.one() && (half_up - 1) & (half_up - 2) == 0 {
+        // The 1 + xC shortcut is only valid for odd lengths q.len() = 2 * half_up - 1 >= 3.
+        if z[0] == zn.one()
+            && half_up >= 2
+            && q.len() == 2 * half_up - 1
+            && (half_up - 1) & (half_up - 2) == 0
+        {
             Self::_middlemul_1x(zr, tmparg, &q[1..], &z[1..half_up], tmphi);
         } else {
             // Shift by one like inverse:
@@ -824,7 +838,9 @@ impl<'a> Poly<'a> {
 
     pub fn div_mod_xn(p: &'a Poly<'a>, q: &Poly<'a>) -> Self {
         let mut z = vec![MInt::default(); p.c.len()];
-        let mut tmp = vec![MInt::default(); 5 * p.c.len()];
+        // _div_mod_xn hands all but 4 * ceil(len / 2) entries to _inv_mod_xn, which wants
+        // 4 * ceil(len / 2) of them: 5 * len is one short for len = 3.
+        let mut tmp = vec![MInt::default(); 6 * p.c.len()];
         Self::_div_mod_xn(p.r, &mut z, &p.c, &q.c, &mut tmp);
         Poly { r: p.r, c: z }
     }
